@@ -100,3 +100,52 @@ pub fn lab5() {
         }
     }
 }
+
+pub fn lab6() {
+    use crate::scen;
+    use crate::wire;
+    use crate::world::*;
+    use std::net::IpAddr;
+    let mut w = World::new(1);
+    w.set_stepping(Stepping::Lazy);
+    let h = w.add_host(scen::single_v4());
+    let a: Vec<IpAddr> = vec!["10.0.0.5".parse().unwrap()];
+    w.register(h, World::reg_info("_t._udp.local.", "Svc1", "box1.local.", &a, 1001, &[("k", Some(b"v1"))]));
+    w.register(h, World::reg_info("_t._udp.local.", "svc2", "box2.local.", &a, 1002, &[("k", Some(b"v2"))]));
+    w.run_for(8000);
+    let variants = std::env::var("LAB_V").unwrap_or("0".into());
+    let mut q = wire::Message::query();
+    let ty = scen::wire_name("_t._udp.local.");
+    q.questions.push(wire::question(&ty, wire::T_PTR));
+    if variants.contains('t') {
+        q.questions.push(wire::question(&scen::wire_name("Svc1._t._udp.local."), wire::T_TXT));
+    }
+    if variants.contains('m') {
+        q.questions.push(wire::question(&scen::wire_name("_services._dns-sd._udp.local."), wire::T_PTR));
+    }
+    q.answers.push(wire::ptr(&ty, 4500, &scen::wire_name("Svc1._t._udp.local.")));
+    w.inject_msg(h, 2, scen::peer4(99), &q);
+    w.run_for(500);
+    for l in w.trace.render(0, 400) {
+        if l.contains("10.0.0.99") || (l.contains(" tx ") && l.contains(" R ")) {
+            println!("  {}", crate::util::prefix(&l, 900));
+        }
+    }
+}
+
+pub fn lab7() {
+    let want = std::env::var("LAB_DESC").unwrap_or_default();
+    for i in 0..4000u64 {
+        let seed = crate::util::mix(1, 0xC10_0000 + i);
+        let made = c06::scenario(seed, true);
+        if made.desc.contains(&want) {
+            println!("{} seed={seed}", made.desc);
+            for l in made.world.trace.render(0, 4000) {
+                if l.contains(" api ") || (l.contains(" tx ") && l.contains(" R ")) || l.contains("4294967295") {
+                    println!("  {}", crate::util::prefix(&l, 700));
+                }
+            }
+            break;
+        }
+    }
+}
